@@ -1042,6 +1042,9 @@ class Processor(object):
         else:
             U_list = []
         tlist = self.get_full_tlist()
+        if tlist is None:
+            # No pulse is defined: there is no time slice to propagate.
+            tlist = []
         coeffs = self.get_full_coeffs()
 
         # Compute drift Hamiltonians
